@@ -177,7 +177,7 @@ func runC07(c *Ctx) {
 		for in := range vis {
 			if ret, isRet := in.(*ssa.Return); isRet {
 				n++
-				for _, src := range shallowSources(ret.Results[len(ret.Results)-1]) {
+				for _, src := range shallowSources(RetVals(ret)[len(ret.Results)-1]) {
 					if !isErr(src) {
 						ok = false // e.g. phi(err, nil): the error is cleared on some path
 					}
@@ -196,7 +196,7 @@ func runC07(c *Ctx) {
 					if call, isC := in.(*ssa.Call); isC && call.Call.StaticCallee() == nil && !call.Call.IsInvoke() {
 						r := MustFollow([]Pt{after(call)}, p.Deep(Site{Name: "return err", Instr: func(x ssa.Instruction) bool {
 							ret, isRet := x.(*ssa.Return)
-							return isRet && errValueMatcher(call)(ret.Results[0])
+							return isRet && errValueMatcher(call)(RetVals(ret)[0])
 						}}), ErrNilEdge(call, false))
 						// MustFollow reports offenders when a Return is reached that is not the B site; B here IS a return, so check differently
 						_ = r
@@ -206,7 +206,7 @@ func runC07(c *Ctx) {
 							if x == ssa.Instruction(l.If) {
 								good = false
 							}
-							if ret, isRet := x.(*ssa.Return); isRet && !errValueMatcher(call)(ret.Results[0]) {
+							if ret, isRet := x.(*ssa.Return); isRet && !errValueMatcher(call)(RetVals(ret)[0]) {
 								good = false
 							}
 						}
@@ -246,6 +246,23 @@ func runC07(c *Ctx) {
 			}
 			vis := Reach([]Pt{{b.Succs[nf], 0}}, nil, nil)
 			good := true
+			// every process is examined: the lookup is not made conditional on a flag of the depending process
+			for _, gd := range GuardsOf(lk) {
+				gv, _ := gd.BoolVal()
+				if ex2, isEx := gv.(*ssa.Extract); isEx {
+					if _, isNext := ex2.Tuple.(*ssa.Next); isNext {
+						continue
+					}
+				}
+				if cmp, isCmp := gd.Cmp(); isCmp {
+					if _, isK := ConstInt(cmp.Y); isK && !IsNilConst(cmp.X) {
+						if _, isPhi := stripConv(cmp.X).(*ssa.Phi); isPhi {
+							continue // index loop condition
+						}
+					}
+				}
+				good = false
+			}
 			for in := range vis {
 				if strictDeep.MayAt(in) {
 					good = false
@@ -253,7 +270,7 @@ func runC07(c *Ctx) {
 				if _, isNext := in.(*ssa.Next); isNext {
 					good = false
 				}
-				if ret, isRet := in.(*ssa.Return); isRet && IsNilConst(ret.Results[0]) {
+				if ret, isRet := in.(*ssa.Return); isRet && IsNilConst(RetVals(ret)[0]) {
 					good = false
 				}
 			}
@@ -285,10 +302,10 @@ func runC07(c *Ctx) {
 				vis := Reach([]Pt{{g.If.Block().Succs[g.Succ], 0}}, nil, nil)
 				good := false
 				for x := range vis {
-					if ret, isRet := x.(*ssa.Return); isRet && !IsNilConst(ret.Results[0]) {
+					if ret, isRet := x.(*ssa.Return); isRet && !IsNilConst(RetVals(ret)[0]) {
 						good = true
 					}
-					if ret, isRet := x.(*ssa.Return); isRet && IsNilConst(ret.Results[0]) {
+					if ret, isRet := x.(*ssa.Return); isRet && IsNilConst(RetVals(ret)[0]) {
 						good = false
 						break
 					}
@@ -621,10 +638,19 @@ func runC07(c *Ctx) {
 			}
 			c.Check(ok, r6, p.FuncKey(f)+":rejected-deleted", p.InstrPos(call), "a rejected process is deleted", "a process rejected by an admitter is not deleted from the project")
 		}
+		// the deletion addresses the entry by the key the map is keyed with (the replica name)
+		AllInstrs(f, func(in ssa.Instruction) {
+			cc, isDel := IsBuiltinCall(in, "delete")
+			if !isDel || len(cc.Args) != 2 || PathOf(cc.Args[0]).LastField() != s.FProcesses {
+				return
+			}
+			okKey := isRangeKeyOver(cc.Args[1], s.FProcesses) || PathOf(cc.Args[1]).LastField() == s.FReplicaName
+			c.Check(okKey, r6, p.FuncKey(f)+":delete-key", p.InstrPos(in), "deleted under the map's key (replica name)", "the rejected process is deleted under a key that is not the key of project.Processes (e.g. its Name instead of its ReplicaName): for a replicated process the deletion does nothing and all its replicas stay in the project and are started")
+		})
 		// called by Load before the final return
 		r := MustPrecede(lp.Load, p.Deep(CallOfFn("admit", f)), func(in ssa.Instruction) bool {
 			ret, ok := in.(*ssa.Return)
-			return ok && !IsNilConst(ret.Results[0]) && DominatesInstr(lp.ValidateCall, in)
+			return ok && !IsNilConst(RetVals(ret)[0]) && DominatesInstr(lp.ValidateCall, in)
 		}, nil)
 		c.PathCheck(r, r6, "load-calls-admission", FirstPos(p, lp.Load), "Load applies the admitters before returning the project", "Load returns the project without applying the admitters")
 	}
